@@ -169,3 +169,13 @@ def groups(tier):
     mk = lambda name, h, extra=(): Group(name, h, [DIST, "Geometry3D.geometry.body:GeoBody.distance"] + list(extra), stubs=cs, world="COORD", timeout_s=900, prove_ms=60000)
     return [mk("distance[Point,Point]", h_point_point, ["Geometry3D.geometry.point:Point.distance"]), mk("distance[Point,Line]", h_point_line),
             mk("distance[Point,Plane]", h_point_plane), mk("distance[Line,Plane]", h_line_plane), mk("distance[Line,Line]", h_line_line)]
+
+
+def bounded(tier, seed):
+    from g3dvc import bounded as B
+    return [("distance catalogue", B.distances, (seed, 60 if tier == "quick" else 1500), 3000)]
+
+
+def replay_case(case):
+    from g3dvc import bounded as B
+    return B.replay_distance(case)
